@@ -64,6 +64,11 @@ func (ls *listenServer) OnCReact(r *core.Msg, c core.CConn) (out []byte, action 
 
 	core.GlobalStats.ReqCmdIncr(r.Type)
 
+	// A frag is handed to a redis connection only after a connection has been found for
+	// every frag of the request. Any failure below answers the client directly and the
+	// request is recycled by the caller, which must not happen while one of its frags
+	// is already queued to redis.
+	routedFrags = routedFrags[:0]
 	for slot, frag := range r.Body {
 		if r.Type == codec.ReqAuth {
 			if len(ls.Password) < 1 {
@@ -99,18 +104,36 @@ func (ls *listenServer) OnCReact(r *core.Msg, c core.CConn) (out []byte, action 
 				return codec.ErrUnKnown.Bytes(), core.None
 			}
 		}
-		frag.Owner = c
+		routedFrags = append(routedFrags, routedFrag{frag: frag, sConn: sConn, addr: addr, slot: slot})
+	}
+
+	for i := range routedFrags {
+		rf := routedFrags[i]
+		routedFrags[i] = routedFrag{}
+		rf.frag.Owner = c
 
 		logging.Debugfunc(func() string {
-			return fmt.Sprintf("[%dm|%df][%dc|%ds] key '%s' maps to server '%s' in slot %d", r.Id, frag.Id, c.Fd(), sConn.Fd(), frag.Key, addr, slot)
+			return fmt.Sprintf("[%dm|%df][%dc|%ds] key '%s' maps to server '%s' in slot %d", r.Id, rf.frag.Id, c.Fd(), rf.sConn.Fd(), rf.frag.Key, rf.addr, rf.slot)
 		})
 
-		sConn.EnqueueOutFrag(frag)
+		rf.sConn.EnqueueOutFrag(rf.frag)
 	}
 
 	c.EnqueueInMsg(r)
 	return
 }
+
+// routedFrag a frag of the request being processed and the redis connection chosen for it
+type routedFrag struct {
+	frag  *core.Frag
+	sConn core.SConn
+	addr  string
+	slot  int32
+}
+
+// routedFrags to avoid frequent memory alloc, set routedFrags as a global variable
+// The main process is a single-threaded service, so don't worry about the concurrency safety
+var routedFrags []routedFrag
 
 // getConn Get an available connection from the redis connection pool
 func (ls *listenServer) getConn(r *core.Msg, slot int32) (core.SConn, error, bool, string) {
